@@ -813,3 +813,34 @@ Proof.
   assert (Hb : below (length (w_st w)) s) by (eapply nth_error_Forall; [exact (proj2 Hw)|exact Hs]).
   eapply (write_never_out_of_fuel c k o wi _ s (proj1 W)); [eapply below_mono; eauto|exact H].
 Qed.
+
+(* ---- C09 determinism: the output does not depend on how a hash set enumerates ------------------------------------------ *)
+From Coq Require Import Permutation.
+
+Lemma existsb_perm : forall (A : Type) (f : A -> bool) l l', Permutation l l' -> existsb f l = existsb f l'.
+Proof.
+  intros A f l l' H. induction H; simpl; auto.
+  - rewrite IHPermutation. reflexivity.
+  - destruct (f x), (f y); reflexivity.
+  - congruence.
+Qed.
+
+(* the hash set of assigned region ids is only asked for membership: ANY enumeration order gives the same document *)
+Theorem regions_independent_of_set_enumeration : forall enum o t,
+  (forall l, Permutation (enum l) l) ->
+  dfxp_regions (fun l => l) enum o t = dfxp_regions (fun l => l) (fun l => l) o t.
+Proof.
+  intros enum o t H. unfold dfxp_regions, kept_regions. f_equal.
+  apply filter_ext. intros p. apply existsb_perm. apply H.
+Qed.
+
+(* ... whereas the container of unique layouts MUST be iterated in a fixed order: with a hash-set-like enumeration
+   (some permutation) of it the region ids change - the real code has to use an ordered container there (_OrderedSet) *)
+Theorem regions_depend_on_unique_layout_order_refuted :
+  exists iter codes, (forall l, Permutation (iter l) l) /\
+    region_ids iter codes <> region_ids (fun l => l) codes.
+Proof.
+  exists (@rev Z), [Some 18%Z; Some (256 + 18)%Z]. split.
+  - intros l. apply Permutation_sym. apply Permutation_rev.
+  - vm_compute. discriminate.
+Qed.
